@@ -586,4 +586,28 @@ class Executor:
         self.alloc = z3.simplify(self.alloc)
         if cls in self.repo.class_ids:
             self.set_cls(r, cls)
-        return VRef(r, cls, exact=True, nullable=False)
+        obj = VRef(r, cls, exact=True, nullable=False)
+        # class-level defaults (e.g. TreeNode._parent = None) are the initial values of the instance attributes
+        if cls in self.repo.classes:
+            seen = set()
+            for c in self.repo.mro(cls):
+                ci = self.repo.classes.get(c)
+                if ci is None:
+                    continue
+                for attr, expr in ci.class_attrs.items():
+                    if attr in seen:
+                        continue
+                    seen.add(attr)
+                    if not isinstance(expr, ast.Constant) or not (expr.value is None or isinstance(expr.value, (bool, int))):
+                        continue
+                    try:
+                        ty = self.field_type(attr, cls)
+                    except Unsupported:
+                        continue
+                    v = VNone() if expr.value is None else (VBool(expr.value) if isinstance(expr.value, bool) else VInt(expr.value))
+                    try:
+                        tree = self.heap_tree(attr, cls)
+                        self.heap[attr] = sto(tree, r, v)
+                    except Unsupported:
+                        pass
+        return obj
